@@ -12,7 +12,7 @@ CLAIMED = {
    note="Assumes: tensors are shape-only (data never touched: any access beyond Shape()/Dtype() makes the run inconclusive); declared rank >= 1 with full type info; dim_value >= 1." + NOTE_COMMON,
    design="DESIGN.md section 4, C13"),
  "C12": dict(
-   text="For each of the 11 element types, both encodings, declared shapes with up to 4 elements and every payload length around the expected one, every payload byte / typed element is a solver variable: the check decides that TensorFromProto (with the real bytes.Reader/binary.LittleEndian loops executed symbolically) yields the declared shape, dtype and the little-endian / narrowed value of every element for ALL bit patterns, or an error and never a panic; unknown data_type codes are one symbolic int32. GraphProto.Params is checked with several initializers sharing one payload. Bounded model checking fits: the code is byte/offset arithmetic where the failing inputs are single lengths or codes.",
+   text="For each of the 11 element types, both encodings, declared shapes with up to 4 elements - including shapes with a zero extent, (0), (2,0), (0,3), whose empty payload is a valid weight - and every payload length around the expected one, every payload byte / typed element is a solver variable: the check decides that TensorFromProto (with the real bytes.Reader/binary.LittleEndian loops executed symbolically) yields the declared shape, dtype and the little-endian / narrowed value of every element for ALL bit patterns, or an error and never a panic; unknown data_type codes are one symbolic int32. GraphProto.Params is checked with several initializers sharing one payload. Bounded model checking fits: the code is byte/offset arithmetic where the failing inputs are single lengths or codes.",
    note="Assumes element count <= 4 is representative for the (uniform) reader loops; SMT-LIB has a single NaN so NaN payload bits are outside; typed BOOL entries restricted to 0/1. One known finding (typed-field fallback for unsupported data_type codes) is listed in known_findings.json." + NOTE_COMMON,
    design="DESIGN.md section 4, C12"),
  "C15": dict(
@@ -78,7 +78,7 @@ CLAIMED = {
    technique="symbolic execution of NewModel/Run with a write monitor over the shared object graph (frame condition), SMT only for path feasibility; native confirmation by state fingerprint or go test -race",
    design="DESIGN.md section 4, C17"),
  "C18": dict(
-   text="Constructors with the environment (os.ReadFile, zip member, io.ReadAll, proto.Unmarshal) as nondeterministic stubs: every failure comes out as (nil, error), never a panic. NewModel on an arbitrary decoded message within bounds (opset versions as solver variables over all of int64, graph absent, initializers with symbolic data_type/dim/payload, value infos with holes): refused iff undecodable or highest opset != 13, with the unsupported-opset error. Run on graphs containing an operator type outside the opset (opaque string unequal to every literal) at every position, output used or not: fails with the unsupported-operator error.",
+   text="Constructors with the environment (os.ReadFile, zip member, io.ReadAll, proto.Unmarshal) as nondeterministic stubs: every failure comes out as (nil, error), never a panic. NewModel on an arbitrary decoded message within bounds (opset versions as solver variables over all of int64, graph absent, initializers with symbolic data_type/dim/payload, value infos with holes, nodes whose attributes are not what their operator expects - a Constant whose value holds no tensor or an undecodable one, unnamed and mistyped attributes, an empty node - under the no-panic assertion): refused iff undecodable or highest opset != 13, with the unsupported-opset error. Run on graphs containing an operator type outside the opset (opaque string unequal to every literal) at every position, output used or not: fails with the unsupported-operator error.",
    note="'Any byte string' through proto.Unmarshal is NOT decided: the protobuf runtime is not encodable; its result is modelled as an arbitrary well-typed message within the bounds, and native cross-validation runs feed garbage, truncated and the sample files through the real decoder. One known finding (typed-field fallback, shared with C12)." + NOTE_COMMON,
    design="DESIGN.md section 4, C18"),
 }
